@@ -1,5 +1,5 @@
 #!/usr/bin/env python3
-"""keep_equiv.py <worktree> <property>: store every behaviour-preserving refactoring out/<k> of a scratch worktree under
+"""keep_equiv.py <worktree> <property> [wave-prefix]: store every behaviour-preserving refactoring out/<k> of a scratch worktree under
 /verif/selftest/equiv/e-<property>-<k>-<slug>/ (patch.diff, notes.md, meta.json). bin/selftest-equiv asserts that the property's
 check stays silent (exit 0) on each of them."""
 import json
@@ -9,6 +9,7 @@ import shutil
 import sys
 VERIF = os.path.dirname(os.path.dirname(os.path.abspath(__file__)))
 wt, prop = sys.argv[1], sys.argv[2]
+wave = sys.argv[3] if len(sys.argv) > 3 else ""
 for k in sorted(os.listdir(os.path.join(wt, "out"))):
     d = os.path.join(wt, "out", k)
     if not os.path.exists(os.path.join(d, "patch.diff")):
@@ -16,7 +17,7 @@ for k in sorted(os.listdir(os.path.join(wt, "out"))):
     notes = open(os.path.join(d, "notes.md")).read() if os.path.exists(os.path.join(d, "notes.md")) else k
     title = re.sub(r"^#+\s*", "", notes.split("\n", 1)[0]).strip()
     slug = re.sub(r"[^a-z0-9]+", "-", title.lower()).strip("-")[:40].strip("-")
-    eid = "e-%s-%s-%s" % (prop, k, slug)
+    eid = "e-%s-%s%s-%s" % (prop, wave, k, slug)
     dst = os.path.join(VERIF, "selftest", "equiv", eid)
     os.makedirs(dst, exist_ok=True)
     shutil.copy(os.path.join(d, "patch.diff"), os.path.join(dst, "patch.diff"))
